@@ -176,7 +176,7 @@ B("c15-no-trailing-slash", "C15", "C15-R3", (INIT, "                        os.p
 B("c15-highest-source-only", ["C15", "C16"], ["C15-R3", "C16-R4"], (INIT, "    settings_obj.input.exclude_filters = list(\n        settings[\"input\"][\"exclude_filters\"].all_contents())", "    settings_obj.input.exclude_filters = list(\n        settings[\"input\"][\"exclude_filters\"].get())"))
 B("c15-makedirs-before-return", "C15", "C15-R4", (INIT, "    # If the input path matches the exclusion pattern, then ignore\n    # this whole path\n    if spec.match_file(input_path):\n        return\n", "    if output_path is not None:\n        os.makedirs(output_path, exist_ok=True)\n    if spec.match_file(input_path):\n        return\n"))
 B("c15-topdown-false", "C15", "C15-R2", (INIT, "input_path, topdown=True,", "input_path, topdown=False,"))
-B("c17-unsorted-files", ["C17", "C14"], ["C17-R2", "C14-R1"], (INIT, "            filenames = sorted(filenames)\n", ""))
+B("c17-unsorted-files", ["C17", "C18"], ["C17-R2", "C18-R6"], (INIT, "            filenames = sorted(filenames)\n", ""))
 B("c17-store-into-settings", "C17", "C17-R3", (INIT, "        new_settings.rst.prefix = prefix", "        settings.rst.prefix = prefix"))
 B("c17-no-deepcopy", "C17", "C17-R3", (INIT, "    new_settings = copy.deepcopy(settings)", "    new_settings = settings"))
 B("c17-time-in-title", "C17", "C17-R2", (INIT, "                index = RSTWriter(rel_path, settings=settings)", "                import time\n                index = RSTWriter(rel_path + time.strftime('%Y'), settings=settings)"))
